@@ -366,20 +366,50 @@ fn cmd_determinism(args: &BTreeMap<String, String>) -> i32 {
 pub fn run_batch(p: &Profile, seed: u64, from: u64, to: u64, threads: usize, samples: bool, focus: Option<&'static str>) -> Vec<RunSummary> {
     let next = AtomicUsize::new(from as usize);
     let out: Mutex<Vec<RunSummary>> = Mutex::new(Vec::new());
+    // watchdog: a single run that does not end (a library call or a compound action that never returns) must not
+    // hang the check silently: it is reported as a harness error with the run to reproduce it
+    let active: Mutex<BTreeMap<u64, Instant>> = Mutex::new(BTreeMap::new());
+    let done = std::sync::atomic::AtomicBool::new(false);
+    let limit = std::env::var("VERIF_RUN_LIMIT_S").ok().and_then(|s| s.parse::<u64>().ok()).unwrap_or(900);
     std::thread::scope(|s| {
-        for _ in 0..threads.max(1) {
-            s.spawn(|| {
-                world::install_thread_hooks();
-                loop {
-                    let i = next.fetch_add(1, Ordering::Relaxed) as u64;
-                    if i >= to {
-                        break;
+        s.spawn(|| {
+            let mut warned: BTreeSet<u64> = BTreeSet::new();
+            while !done.load(Ordering::Relaxed) {
+                std::thread::sleep(std::time::Duration::from_millis(500));
+                let a = active.lock().unwrap();
+                for (i, t0) in a.iter() {
+                    let el = t0.elapsed().as_secs();
+                    if el >= 120 && warned.insert(*i) {
+                        eprintln!("note: run {i} (profile {}, seed {seed}) has been running for {el} s", p.name);
                     }
-                    let r = run_one(p, seed, i, false, samples && i < from + 2, focus);
-                    out.lock().unwrap().push(r);
+                    if el >= limit {
+                        eprintln!("harness error: run {i} (profile {}, seed {seed}, run seed {}) did not end within {limit} s; reproduce with `raftsim run --profile <ID> --seed {seed} --index {i}`", p.name, mix(seed, *i));
+                        std::process::exit(2);
+                    }
                 }
-            });
+            }
+        });
+        let workers: Vec<_> = (0..threads.max(1))
+            .map(|_| {
+                s.spawn(|| {
+                    world::install_thread_hooks();
+                    loop {
+                        let i = next.fetch_add(1, Ordering::Relaxed) as u64;
+                        if i >= to {
+                            break;
+                        }
+                        active.lock().unwrap().insert(i, Instant::now());
+                        let r = run_one(p, seed, i, false, samples && i < from + 2, focus);
+                        active.lock().unwrap().remove(&i);
+                        out.lock().unwrap().push(r);
+                    }
+                })
+            })
+            .collect();
+        for w in workers {
+            let _ = w.join();
         }
+        done.store(true, Ordering::Relaxed);
     });
     let mut v = out.into_inner().unwrap();
     v.sort_by_key(|r| r.index);
